@@ -107,6 +107,7 @@ type Run struct {
 	pools       map[*Slot]*poolModel
 	cuts        map[string]bool
 	mutexes     map[*Slot]*mutexState
+	conds       map[*Slot]*condState
 	timerBySlot map[*Slot]*timerEnv
 	clock       int
 	mapOrderOff bool
